@@ -548,6 +548,10 @@ def cases(tier, seed):
         out.append(Case("H02.f", f"{i:05d}", M, "h_other_numeric_types", {"pairs": exact_pairs[i : i + 60]}, kind="conc"))
     out.append(Case("H02.f", "inplace-narrow-arrays", M, "h_inplace_narrow_arrays", {}, kind="conc"))
     out.append(Case("H02.f", "decimal-high-precision", M, "h_decimal_high_precision", {}, kind="conc"))
+    # a definition replaced after the registry has been used (on_redefinition='ignore'): the
+    # factors are those of the text as it now stands, whatever had been memoised before
+    for pre in ("conversions", "roots", "all", "via-load_definitions"):
+        out.append(Case("H02.e", f"replaced-definition:pre={pre}", "pvlib.harness.c13", "h_redefinition_history", {"pre": pre}, opts={"hash_mode": "mixed", "max_paths": 300}, validate=1))
     # H02.d generated registries with symbolic scales
     for t in TEMPLATES:
         out.append(Case("H02.d", t[0], M, "h_generated", {"tname": t[0]}, weight=5.0))
